@@ -138,7 +138,7 @@ class SInt:
         return SReal.of(o) / self
 
     def __rpow__(self, base):
-        return base ** concretize(self)
+        return base ** concretize(self)       # forks over the feasible exponents (keeps the arithmetic linear)
 
     def __pow__(self, e):
         if isinstance(e, int) and 0 <= e <= 4:
